@@ -41,6 +41,7 @@ structure D where
   hookVal : HookRes := .ok
   cancelIssued : Bool := false
   pauseSeen : Bool := false          -- the script issued a pause (API or block hook)
+  cancelFam : Bool := false          -- the script issued a cancelling stimulus (cancel, failure status, response-hook error)
   -- print cursors
   nP : Nat := 0
   nE : Nat := 0
@@ -225,7 +226,9 @@ def obs (d : D) (extra : String) : D × String :=
   let cnt := (newP.filter fun e => match e with | .send _ => true | .close => false).length
   let pcl := newP.any fun e => match e with | .close => true | _ => false
   let newE := if d.gRe then [] else d.s.retE.drop d.nE
-  let es := newE.filterMap fun e => match e with | .send x => some (errName x) | .close => none
+  -- (the executor's final traversal error races with a cancelled request context: see harness obs)
+  let es := (newE.filterMap fun e => match e with | .send x => some (errName x) | .close => none).filter
+    fun k => !(d.cancelFam && k == "other")
   let ecl := newE.any fun e => match e with | .close => true | _ => false
   let os := (d.s.outbox.drop d.nO).map outName
   let as := sortStr ((d.s.apiLog.drop d.nA).map apiName)
@@ -324,20 +327,24 @@ def stepLine (d : D) (t : Toks) : D × String :=
   | ["resp", p, st, items, hk] =>
     if !d.created then (d, "bad-op") else
     match p.toNat?, st.toNat?, items.toNat? with
-    | some p, some st, some items => obs (settleD (sendResp d p st items (hk == "err"))) ""
+    | some p, some st, some items =>
+      let d := if (30 ≤ st && st ≤ 35) || hk == "err" then { d with cancelFam := true } else d
+      obs (settleD (sendResp d p st items (hk == "err"))) ""
     | _, _, _ => (d, "bad-op")
   | ["respx", p, st, items, hk] =>
     -- a response stream that leaves out one item: the loader must reject it
     if !d.created then (d, "bad-op") else
     match p.toNat?, st.toNat?, items.toNat? with
-    | some p, some st, some items => obs (settleD (sendResp d p st items (hk == "err") 1)) ""
+    | some p, some st, some items =>
+      let d := if (30 ≤ st && st ≤ 35) || hk == "err" then { d with cancelFam := true } else d
+      obs (settleD (sendResp d p st items (hk == "err") 1)) ""
     | _, _, _ => (d, "bad-op")
   | ["cancelctx"] =>
     if !d.created then (d, "bad-op") else
-    obs (settleD (stim { d with cancelIssued := true } .envCtxCancel)) ""
+    obs (settleD (stim { d with cancelIssued := true, cancelFam := true } .envCtxCancel)) ""
   | ["cancelapi"] =>
     if !d.created then (d, "bad-op") else
-    obs (settleD (stim { d with cancelIssued := true } .envCancelApi)) ""
+    obs (settleD (stim { d with cancelIssued := true, cancelFam := true } .envCancelApi)) ""
   | ["pause"] => if !d.created then (d, "bad-op") else obs (settleD (stim { d with pauseSeen := true } .envPause)) ""
   | ["unpause"] => if !d.created then (d, "bad-op") else obs (settleD (stim d .envUnpause)) ""
   | ["disc"] =>
